@@ -361,9 +361,10 @@ impl<'m> Iterator for NamedGroups<'m> {
     }
 
     fn size_hint(&self) -> (usize, Option<usize>) {
-        let size = self.mat.group_names[self.next_group_idx..]
-            .iter()
-            .filter(|s| !s.is_empty())
+        // Count the names that remain to be yielded: each distinct name once, at its first group.
+        let names = &self.mat.group_names;
+        let size = (self.next_group_idx..names.len())
+            .filter(|&i| !names[i].is_empty() && !names[..i].contains(&names[i]))
             .count();
 
         (size, Some(size))
